@@ -349,8 +349,42 @@ def r84(ctx, fx):
                         "line break is a syntax error" % grammar.short(body)[:40], f.where)
 
 
+def r87(ctx, fx):
+    from . import grammar
+    rid = ctx.rule("R8.7", "a look-ahead (`not(..)`, `peek(..)`) looks at what follows *directly*: it does not wrap a trivia parser (`ws`, `mws`). A look-ahead that skips "
+                   "blanks and comments looks at the next token, and the next token after a `-` / `+` label or at the end of an operand may be the first token of the "
+                   "next statement on the same line — then a blank in place of the line break between two statements changes which alternative is parsed")
+    n = 0
+    j = 0
+    for f in sorted(fx.all_fns("mos_core"), key=lambda f: f.path):
+        if f.kind != "fn" or not f.path.startswith("mos_core::parser::") or "::tests::" in f.path or "::testing" in f.path:
+            continue
+        gs = [grammar.fn_grammar(f)] + grammar.applied_parsers(f)
+        seen = set()
+        for g in gs:
+            for t in grammar.walk(g):
+                if not (isinstance(t, tuple) and t and t[0] in ("not", "peek")):
+                    continue
+                sig = grammar.short(t)
+                if sig in seen:
+                    continue
+                seen.add(sig)
+                n += 1
+                inner = [u for u in grammar.walk(t[1]) if isinstance(u, tuple) and u and u[0] in ("ws", "mws")]
+                key = "%s|lookahead#%d" % (f.path, len(seen))
+                ctx.inst(rid, key, sample={"fn": f.path, "lookahead": sig[:80], "skips_trivia": bool(inner)})
+                if inner:
+                    j += 1
+                    ctx.finding(rid, "%s|lookahead-skips-trivia#%d" % (f.path, j),
+                                "%s decides by a look-ahead that skips blanks and comments (`%s`): what it sees behind them may belong to the next statement on the line, "
+                                "so `bne - rts` on one line and on two lines are parsed differently" % (f.path.rsplit("::", 1)[-1], sig[:70]), f.where)
+    if n < 3:
+        ctx.fail_closed(rid, "fewer than 3 look-aheads found in the parser (%d)" % n)
+
+
 def run(ctx):
     fx = ctx.facts
+    r87(ctx, fx)
     kws = r81_83(ctx, fx)
     r82(ctx, fx, kws)
     r84(ctx, fx)
